@@ -504,3 +504,70 @@ def read_cores(func_sets, ann_names, nested_pairs):
                 text = head + _fill(tmpl, {'A': a, 'B': b}) + ')'
                 key = f'R/{fname}/{sname}/{a}>{b}'
                 yield Core(key, text, {'func': fname, 'shape': sname, 'ann': f'{a}>{b}', 'family': 'R', 'key': key})
+
+
+# ---------------------------------------------------------------------------
+# family V: if/else (and loop bodies) that *introduce* a variable in addition to
+# mutating existing ones.  The bundling passes pack "mutated + introduced" into a
+# tuple and unpack it after the statement, so the new name is chosen to sort
+# before, between and after the mutated names `a`, `b` (`Aq` < `a` < `aa` < `b`
+# < `zz` as strings), every subset of {a, b} is mutated, the introduction comes
+# first or last in the arm, and the statement stands at function level, in a for
+# over range, in a for over the list argument, in a counted while, and after / in
+# an inner `with`.  The new variable is always used after the if/else.
+
+V_NAMES = ('Aq', 'aa', 'zz')
+V_MUTATED = (('a',), ('b',), ('a', 'b'))
+V_PLACES = ('top', 'for-range', 'for-list', 'while', 'after-with', 'in-with', 'body-intro')
+
+
+def _v_if(new, mutated, intro_first):
+    then_m = {'a': 'a = a + fp.round(2)', 'b': 'b = b * fp.round(3)'}
+    else_m = {'a': 'a = a - fp.round(0.1)', 'b': 'b = b + fp.round(1)'}
+    then = [S(then_m[v]) for v in mutated]
+    els = [S(else_m[v]) for v in mutated]
+    ti, ei = S(f'{new} = a * fp.round(10) + b'), S(f'{new} = b * fp.round(100) - a')
+    then = [ti] + then if intro_first else then + [ti]
+    els = [ei] + els if intro_first else els + [ei]
+    return ('if', 'a < b', then, els)
+
+
+def intro_programs(outers, inner, names=V_NAMES, mutated_sets=V_MUTATED, places=V_PLACES):
+    for outer in outers:
+        for place in places:
+            for new in names:
+                for mutated in mutated_sets:
+                    for intro_first in (True, False):
+                        stmt = _v_if(new, mutated, intro_first)
+                        use = S(f'a = a / {new} + b')
+                        sig = 'scalar'
+                        if place == 'top':
+                            body = [stmt, use]
+                        elif place == 'for-range':
+                            body = [('for', 'i1', 'range(3)', [S('b = b + i1'), stmt, use])]
+                        elif place == 'for-list':
+                            sig = 'list'
+                            body = [('for', 'x1', 'us', [S('a = a + x1'), stmt, use])]
+                        elif place == 'while':
+                            body = [S('k1 = fp.round(0)'),
+                                    ('while', 'k1 < fp.round(2)', [stmt, use, S('k1 = k1 + fp.round(1)')])]
+                        elif place == 'after-with':
+                            body = [W(inner, [S('a = a * b')]), stmt, use]
+                        elif place == 'in-with':
+                            body = [W(inner, [stmt]), use]
+                        elif place == 'body-intro':
+                            # a loop body that introduces a variable (no branch) and uses it later in the body
+                            if intro_first:
+                                continue
+                            upd = [S({'a': 'a = a + fp.round(2)', 'b': 'b = b * fp.round(3)'}[v]) for v in mutated]
+                            body = [('for', 'i1', 'range(3)', [S(f'{new} = a * fp.round(10) + i1')] + upd + [use]),
+                                    S('k1 = fp.round(0)'),
+                                    ('while', 'k1 < fp.round(2)',
+                                     [S(f'{new} = b - k1')] + upd + [S(f'b = b + {new}'), S('k1 = k1 + fp.round(1)')])]
+                        else:
+                            raise ValueError(place)
+                        items = [W(outer, [S('a = u'), S('b = v')] + body + [S('return (a, b)')])]
+                        key = f'V/{place}/{new}/{"".join(mutated)}/{"intro-first" if intro_first else "intro-last"}/{outer}'
+                        yield Prog('V', key, sig, items,
+                                   {'skeleton': f'{place}:{new}:{"".join(mutated)}', 'outer': outer, 'inner': inner,
+                                    'ret': 'pair', 'rot': 0, 'size': 3})
